@@ -728,7 +728,8 @@ def to_hashable(  # noqa: C901, PLR0911, PLR0912
         )
         return (m, tp, data)
     if isinstance(obj, collections.Counter):
-        return (m, tp, tuple(sorted(obj.items())))
+        # Counter equality treats a missing element as a zero count (Counter(a=0) == Counter())
+        return (m, tp, tuple(sorted(item for item in obj.items() if item[1] != 0)))
     if isinstance(obj, dict):
         return (m, tp, _hashable_mapping(obj, fallback_to_pickle, sort=True))
     if isinstance(obj, set | frozenset):
